@@ -21,8 +21,8 @@ from vlib import core
 
 FAMILIES = {
     #            family  L  workers
-    "quick": [("rte", 4), ("rte2", 3), ("rex", 4), ("rts", 9), ("rtsbig", 3), ("utf8", 2), ("wa", 3), ("wf", 3)],
-    "thorough": [("rte", 5), ("rte2", 4), ("rex", 5), ("rts", 9), ("rtsbig", 4), ("utf8", 3), ("wa", 4), ("wf", 4)],
+    "quick": [("all", 3)],
+    "thorough": [("rte", 5), ("rte2", 4), ("rex", 5), ("rts", 9), ("rtsbig", 4), ("utf8", 4), ("wa", 4), ("wf", 4)],
 }
 ID_FAMILIES = {"rte", "rte2", "rex", "wa", "wf"}
 INVARIANTS = "Correct NoBad CarrySound ProbeOnlyExactFit NotStuck Emit"
@@ -60,7 +60,8 @@ def model_family(chk, fam, L, workers, grow_extra="{}"):
     if not beh:
         raise core.ToolError("IoHelpers_MC family %s printed no behaviour" % fam)
     for b in beh:
-        if fam in ID_FAMILIES:
+        b["ids"] = b["op"] != "read_to_string"     # byte contents regenerated (IdData / IdInit)
+        if b["ids"]:
             b["data"] = id_data(b["dlen"])
             b["init"] = id_init(b["ilen"])
         b["fam"] = fam
@@ -319,7 +320,7 @@ def _run(chk, tier):
     per_family = {}
     with ThreadPoolExecutor(max_workers=3) as ex:
         # thorough: the allocator may also hand out one byte / 32 bytes more than asked (rte2, rtsbig)
-        futs = [(fam, L, ex.submit(model_family, chk, fam, L, 8 if fam == "rte" else 3,
+        futs = [(fam, L, ex.submit(model_family, chk, fam, L, 8 if fam in ("rte", "all") else 3,
                                    "{1, 32}" if tier == "thorough" and fam in ("rte2", "rtsbig") else "{}")) for fam, L in fams]
         for fam, L, fu in futs:
             res, beh = fu.result()
@@ -342,7 +343,7 @@ def _run(chk, tier):
     core.log("TLC: %d behaviours of %d cases (%.1fs)" % (len(behaviours), len(cases), time.time() - chk.t0))
     # 2. the real helpers on every generated case and on seeded random long scripts
     rng = random.Random(chk.seed)
-    rcases = random_cases(rng, 1500 if tier == "quick" else 20000)
+    rcases = random_cases(rng, 3000 if tier == "quick" else 20000)
     ngen = len(cases)
     allcases = cases + rcases
     allouts = run_driver(chk, bindir, allcases, "all")
@@ -363,7 +364,7 @@ def _run(chk, tier):
         ms = models[case_key(c)]
         hit = any(m["calls"] == o["calls"] and m["err"] == o["err"] and m["rn"] == o["rn"]
                   and (m["blen"] == len(o["buf"]) or c["op"] == "read_exact")
-                  and m["pos"] == o["pos"] and (m["fam"] in ID_FAMILIES or m["buf"] == o["buf"]) for m in ms)
+                  and m["pos"] == o["pos"] and (m["ids"] or m["buf"] == o["buf"]) for m in ms)
         if hit:
             b1 += 1
         elif len(drift) < 5:
@@ -431,7 +432,8 @@ def _run(chk, tier):
                 "x UTF-8 strings/splits, model-checks the transcription on each and prints its behaviours; the real helpers "
                 "are run on every case (%d) and on %d seeded random long scripts; every run is judged by TLC. "
                 "non-trivial = distinct cases whose script has >= 2 items or an EINTR / error / Ok(0) item"
-                % (", ".join("%s L<=%d" % (f, L) for f, L in fams), len(cases), len(rcases)))
+                % (", ".join(("%s L<=%d" % (f, L)) if f != "all" else "rte, rte2, rex, rts, rtsbig, utf8, wa, wf in one run, L<=%d" % L
+                             for f, L in fams), len(cases), len(rcases)))
     chk.extra["families"] = per_family
     chk.extra["branches_taken_by_model_behaviours"] = dict(sorted(model_acts.items()))
     chk.extra["branches_taken_by_real_runs"] = dict(sorted(chk.extra["branches_taken_by_real_runs"].items()))
